@@ -110,7 +110,8 @@ impl Scenario for SignSc {
                 }
             }
             "tamper" => {
-                let mode = if lengths && x.chance(1, 2) { 5 } else { x.below(N_PERTURB) as i64 };
+                // mode 24 = public key AND signature crafted jointly: a quarter of the plain `tamper` runs
+                let mode = if lengths && x.chance(1, 2) { 5 } else if !lengths && x.chance(1, 4) { 24 } else { x.below(N_PERTURB) as i64 };
                 p.faults.push(Step::new("perturb", &[mode, x.below(1 << 20) as i64]));
             }
             "bitflip-all" => {
@@ -298,7 +299,7 @@ fn run_sign_rt(plan: &Plan, lib: &dyn Lib, rec: &mut Rec) {
 // ------------------------------------------------------------------------------------------
 // C02
 // ------------------------------------------------------------------------------------------
-const N_PERTURB: u64 = 24;
+const N_PERTURB: u64 = 25;
 
 struct Tuple {
     pk: Vec<u8>,
@@ -385,6 +386,24 @@ fn run_tamper(plan: &Plan, lib: &dyn Lib, rec: &mut Rec) {
         20 => { t.pk = pkp.mul(&k).to_bytes(); t.sig = refimpl::layout::tagged(sig[0], &sp.mul(&k).to_bytes()); "pk*k-with-sig*k (two components)" }
         21 => { t.sig = refimpl::layout::tagged(sig[0], &sp.add(&refimpl::small_order_point(g.sig_len(), salt)).to_bytes()); "sig+T(small order)" }
         22 => { t.pk = pkp.add(&refimpl::small_order_point(g.pk_len(), salt)).to_bytes(); "pk+T(small order)" }
+        24 => {
+            // pk' = alpha*pk + beta*G, sig' = gamma*sig + delta*H(message as hashed under pk'): coefficients from
+            // {0, 1, -1, 2, k}; each stays honest (1, 0, 1, 0) half of the time. E.g. (pk+G, sig+H) IS a valid signature
+            // (of the key sk+1); (pk+G, sig-H) is not. The reference decides.
+            let one = refimpl::scalar_from_u64(1);
+            let zero = refimpl::scalar_from_u64(0);
+            let set = [zero, one, -one, one + one, k];
+            let mut pick = |x: &mut Xo, honest: refimpl::RefScalar| if x.chance(1, 2) { honest } else { set[x.below(5) as usize] };
+            let (al, be, ga, de) = (pick(&mut x, one), pick(&mut x, zero), pick(&mut x, one), pick(&mut x, zero));
+            let pk2 = pkp.mul(&al).add(&pkp.gen_like().mul(&be));
+            let bref = Bls::with_tags(sig_grp(g), draft.clone());
+            let sch = Scheme::from_u8(sig[0]);
+            let hashed: Vec<u8> = if sig[0] == 1 { let mut m = pk2.to_bytes(); m.extend_from_slice(&msg); m } else { msg.clone() };
+            let h = bref.hash_msg(&hashed, draft.sig(sch));
+            t.pk = pk2.to_bytes();
+            t.sig = refimpl::layout::tagged(sig[0], &sp.mul(&ga).add(&h.mul(&de)).to_bytes());
+            "pk-and-sig-crafted-jointly (two components)"
+        }
         _ => { "in-flight-bitflip" }
     };
     rec.fault("byz-relay");
@@ -413,7 +432,7 @@ fn run_tamper(plan: &Plan, lib: &dyn Lib, rec: &mut Rec) {
         c.finish(rec);
         return;
     }
-    if mode >= 23 {
+    if mode == 23 || mode > 24 {
         // random in-flight corruption of the encodings
         let part = (salt % 2) as usize;
         c.fault(K_RESP, 0, NetAction::BitFlip { part, bit: (salt >> 1) as usize });
